@@ -495,7 +495,9 @@ def expr_of_w(v):
     if k in ('NOT', 'LEN'):
         return [k.lower(), expr_of_w(v[1])]
     if k == 'CALL':
-        return ['call', expr_of_w(v[1])[1], [expr_of_w(a) for a in v[2]]]
+        pos = [expr_of_w(a) for a in v[2] if str(a[0]) != 'KW']
+        kw = [[a[1], expr_of_w(a[2])] for a in v[2] if str(a[0]) == 'KW']
+        return ['call', expr_of_w(v[1])[1], pos] + ([kw] if kw else [])
     raise ValueError(v)
 
 
@@ -506,7 +508,9 @@ def opt_src(v):
 def model_dir(v):
     k = str(v[0])
     if k == 'Def':
-        return ['def', v[1], list(v[2])]
+        # parameter names, and which of them have a default (the default expressions are compared by rendering)
+        return ['def', v[1], [pp if isinstance(pp, str) else pp[1] for pp in v[2]],
+                sorted(pp[1] for pp in v[2] if not isinstance(pp, str))]
     if k in ('When', 'Choose', 'Strip'):
         return [k.lower(), opt_src(v[1])]
     if k == 'Otherwise':
@@ -548,7 +552,7 @@ def real_dir(d):
     name = type(d).tagname
     src = lambda: d.expr.source.strip() if d.expr is not None else None   # the old text syntax keeps the line break
     if name == 'def':
-        return ['def', d.name, list(d.args)]
+        return ['def', d.name, list(d.args), sorted(d.defaults)]
     if name in ('when', 'choose', 'strip'):
         return [name, src()]
     if name == 'otherwise':
@@ -650,6 +654,41 @@ def gen_choose_case(rng, lang):
     return nodes
 
 
+def gen_macro_case(rng, lang):
+    """parameter binding of a macro: a definition whose body shows every parameter (the value and
+    whether it is None), with defaults on the last parameters, followed by calls that pass each
+    parameter by position, by keyword or not at all — values of every type, None and the other
+    falsy values first of all; the names of the parameters shadow context data"""
+    st = G.GenState(rng, lang, {'size': 8})
+    names = list(G.VARS)
+    params = rng.sample(['x', 'y', 'p', 'q'], rng.choice([1, 2, 2, 3]))
+    nd = min(len(params), rng.choice([0, 1, 1, 2, 3]))
+    arg = ['f', params] + ([[[pn, G.gen_default(rng, names)] for pn in params[len(params) - nd:]]] if nd else [])
+    body = []
+    for pn in params:
+        body += [['t', 'a'], ['e', ['v', pn]], ['t', '.'], ['e', ['eq', ['v', pn], ['n']]]]
+    if rng.random() < 0.3:
+        body += G.gen_nodes(st, names + params, 1, False)
+    if lang == 'markup' and rng.random() < 0.5:
+        node = ['el', rng.choice(G.TAGS), [], [['def', arg]], body]
+    else:
+        node = ['d', 'def', arg, body]
+    macro = ['f', params, nd]
+    calls = []
+    for _ in range(rng.choice([1, 2, 3])):
+        call = G.gen_call(rng, names, macro, 'c', 1)
+        if rng.random() < 0.25:
+            # inside a scope that binds a parameter name: the default / the argument is evaluated there
+            calls.append(['d', 'with', [[rng.choice(params), G.gen_argval(rng, names, 0)]], [call]])
+        else:
+            calls.append(call)
+        calls.append(['t', ' '])
+    nodes = G.canon_nodes([node] + calls + [['e', ['v', params[0]]]])
+    if lang == 'oldtext':
+        nodes, _ = G.fix_old(nodes)
+    return nodes
+
+
 def corpus_cases():
     """minimised past disagreements / defects (corpus/C04/*.json), run first by shard 0"""
     import glob, os
@@ -666,6 +705,8 @@ def gen_case(rng, i):
     r = rng.random()
     if r < 0.12:
         nodes = gen_choose_case(rng, lang)
+    elif r < 0.24:
+        nodes = gen_macro_case(rng, lang)
     else:
         nodes = G.gen_template(rng, lang, size=rng.choice([6, 10, 14, 20]), depth=rng.choice([2, 3, 3, 4]),
                                replace_mix=True)
@@ -686,6 +727,33 @@ def features(case):
             c['elem:' + n[1]] = c.get('elem:' + n[1], 0) + 1
         elif n[0] == 'c':
             c['call'] = c.get('call', 0) + 1
+    # how the parameters of the macros are bound by the calls (by the name of the macro: a name is
+    # defined at most once)
+    macros = {}
+    for n in G.walk(case['nodes']):
+        args = [n[2]] if (n[0] == 'd' and n[1] == 'def') else \
+            [a for d, a in n[3] if d == 'def'] if n[0] == 'el' else []
+        for a in args:
+            macros[a[0]] = (list(a[1]), dict((k, v) for k, v in G.def_defaults(a)))
+            c['def:params:%d' % min(len(a[1]), 3)] = c.get('def:params:%d' % min(len(a[1]), 3), 0) + 1
+            if G.def_defaults(a):
+                c['def:with-defaults'] = c.get('def:with-defaults', 0) + 1
+    for n in G.walk(case['nodes']):
+        if n[0] == 'c' and n[1] in macros:
+            params, dflt = macros[n[1]]
+            kw = dict((k, v) for k, v in G.call_kwargs(n))
+            for i, pn in enumerate(params):
+                if i < len(n[2]):
+                    how, val = 'positional', n[2][i]
+                elif pn in kw:
+                    how, val = 'keyword', kw[pn]
+                else:
+                    how, val = ('default' if pn in dflt else 'missing'), None
+                key = 'bind:%s%s%s' % (how, ':param-has-default' if (pn in dflt and how != 'default') else '',
+                                       ':None' if val == ['n'] else ':falsy' if val in G.FALSY else '')
+                c[key] = c.get(key, 0) + 1
+            if len(n[2]) > len(params):
+                c['bind:surplus-positional'] = c.get('bind:surplus-positional', 0) + 1
     return c
 
 
